@@ -26,10 +26,12 @@ CONSTANTS Dev,        \* named deviations of the real code (DESIGN 2.6)
           EntQKinds,  \* query kinds explored in the ENT hierarchy shapes
           MaxRuns,    \* validations of the same question on ONE context (caches persist)
           AnchorForms, \* how the trust anchors are configured (routes of anchor.rs)
-          Cfgs        \* validator configurations (context::Config routes / values)
+          Cfgs,       \* validator configurations (context::Config routes / values)
+          AdvOn,      \* messages the adversary may rewrite: subset of {"ANS", "DS", "DNSKEY"}
+          Mut         \* seeded mutants of this specification ({} except in mutant runs)
 
 DevNames == {"D_nsec3_label_expect", "D_ttl0_node_panic", "D_extra_rrset_ignored",
-             "D_sigcache_ignores_time"}
+             "D_sigcache_ignores_time", "D_ent_node_as_signer"}
 
 -----------------------------------------------------------------------------
 (* Hierarchy *)
@@ -98,6 +100,12 @@ NoPrf == [flavour |-> "none", covers |-> "none", optout |-> FALSE]
 Grp(role, kind, zone, rdata, prf, wild, depth) ==
   [role |-> role, kind |-> kind, zone |-> zone, rdata |-> rdata, sigs |-> {},
    prf |-> prf, wild |-> wild, depth |-> depth,
+   \* closest encloser, in labels below the apex.  An RRset expanded from a
+   \* wildcard: the one its RRSIG's labels field implies (the wildcard's
+   \* parent).  A proof that the query name does not exist: the one it
+   \* establishes (NSEC: the longest suffix the name shares with the covering
+   \* record's owner or next name; NSEC3: the parent of the covered name).
+   ce |-> 0,
    bad |-> [n |-> 0, first |-> FALSE]]   \* extra RRSIGs by the right key that do not verify
 
 Signd(sh, g) == IF Signed(sh, g.zone) THEN [g EXCEPT !.sigs = {Sig(g.zone, g, "ok")}] ELSE g
@@ -107,15 +115,26 @@ Prf(den, optoutCover) ==
    optout |-> optoutCover]
 
 Data(sh, role, z, depth, wild) == Signd(sh, Grp(role, "data", z, "good", NoPrf, wild, depth))
+\* an RRset expanded from the wildcard whose parent is wce labels below the apex
+WData(sh, role, z, depth, wce) ==
+  Signd(sh, [Grp(role, "data", z, "good", NoPrf, TRUE, depth) EXCEPT !.ce = wce])
 Soa(sh, z) == Signd(sh, Grp("soa", "soa", z, "good", NoPrf, FALSE, 0))
 \* depth = labels of the proof record's owner below the apex (NSEC: the
 \* covering record's real owner; NSEC3: the hash label)
-WildKinds == {"wildcard", "wilddeep", "wcname", "wcnodata"}
+WildKinds == {"wildcard", "wilddeep", "wildsub", "wcname", "wcnodata"}
 PDepth(den, role, qk) == IF den # "nsec" THEN 1
                          ELSE IF role = "wc" THEN (IF qk = "wcnodata" THEN 2 ELSE 0)
+                         ELSE IF role = "nx" /\ qk = "wildsub" THEN 3
                          ELSE IF role = "nx" /\ qk \in WildKinds THEN 2 ELSE 1
+\* the wildcard's parent: "wild" (one label below the apex), or - wildsub -
+\* the inner wildcard's parent "i.wild"
+WildCe(qk) == IF qk = "wildsub" THEN 2 ELSE 1
 ProofD(sh, den, role, z, oo, d) ==
   Signd(sh, Grp(role, "proof", z, "good", Prf(den, oo /\ den = "optout"), FALSE, d))
+\* the proof that the name below a wildcard does not exist (closest encloser ce)
+ProofW(sh, den, z, qk) ==
+  Signd(sh, [Grp("nx", "proof", z, "good", Prf(den, den = "optout"), FALSE, PDepth(den, "nx", qk))
+               EXCEPT !.ce = WildCe(qk)])
 Proof(sh, den, role, z, oo) == ProofD(sh, den, role, z, oo, 1)
 
 \* proofs exist only in signed zones
@@ -125,18 +144,19 @@ Proofs(sh, z, s) == IF Signed(sh, z) THEN s ELSE <<>>
 HonestAnswer(sh, den, qk) ==
   LET z == Leaf(sh) p == Parent(z) IN
   CASE qk = "positive" -> <<Data(sh, "ans", z, 1, FALSE)>>
-    [] qk = "wildcard" -> <<Data(sh, "ans", z, 2, TRUE)>> \o
-                          Proofs(sh, z, <<ProofD(sh, den, "nx", z, TRUE, PDepth(den, "nx", qk))>>)
+    [] qk = "wildcard" -> <<WData(sh, "ans", z, 2, 1)>> \o Proofs(sh, z, <<ProofW(sh, den, z, qk)>>)
     \* the wildcard expanded over two labels (no name in between exists)
-    [] qk = "wilddeep" -> <<Data(sh, "ans", z, 3, TRUE)>> \o
-                          Proofs(sh, z, <<ProofD(sh, den, "nx", z, TRUE, PDepth(den, "nx", qk))>>)
+    [] qk = "wilddeep" -> <<WData(sh, "ans", z, 3, 1)>> \o Proofs(sh, z, <<ProofW(sh, den, z, qk)>>)
+    \* a second wildcard one level further down (*.i.wild, "i.wild" an empty
+    \* non-terminal): RRSIG labels field = apex + 2
+    [] qk = "wildsub"  -> <<WData(sh, "ans", z, 3, 2)>> \o Proofs(sh, z, <<ProofW(sh, den, z, qk)>>)
     \* a wildcard CNAME (do_cname_dname checks the expansion like an answer's)
-    [] qk = "wcname"   -> <<Data(sh, "cname1", z, 2, TRUE), Data(sh, "ans", z, 1, FALSE)>> \o
-                          Proofs(sh, z, <<ProofD(sh, den, "nx", z, TRUE, PDepth(den, "nx", qk))>>)
+    [] qk = "wcname"   -> <<WData(sh, "cname1", z, 2, 1), Data(sh, "ans", z, 1, FALSE)>> \o
+                          Proofs(sh, z, <<ProofW(sh, den, z, qk)>>)
     \* wildcard NODATA (RFC 4035 3.1.3.4, RFC 5155 7.2.5): the name does not
     \* exist, the wildcard does but has no such type
     [] qk = "wcnodata" -> <<Soa(sh, z)>> \o
-                          Proofs(sh, z, <<ProofD(sh, den, "nx", z, TRUE, PDepth(den, "nx", qk))>> \o
+                          Proofs(sh, z, <<ProofW(sh, den, z, qk)>> \o
                                         (IF den = "nsec" THEN <<>>
                                          ELSE <<Proof(sh, den, "ce", z, FALSE)>>) \o
                                         <<ProofD(sh, den, "wc", z, FALSE, PDepth(den, "wc", qk))>>)
@@ -243,7 +263,8 @@ VARIABLES budget,   \* rewrites left to the adversary
           shortz,   \* zones whose cached node is only valid for that short time
           run,      \* number of the current validation on this context
           hist,     \* earlier runs: <<[adv, result]>>
-          entp,     \* the ENT above the leaf zone has been looked at
+          entp,     \* the ENT above the leaf zone: "no" node for it yet, looked at
+                    \* "now" (in this run), node "cached" from an earlier run
           result, steps
 
 vars == <<scn, budget, advlog, pc, pend, inbox, msg, gi, gst, walk, node, tkeys,
@@ -261,7 +282,7 @@ Init ==
   /\ inbox = HonestAnswer(scn.shape, scn.denial, scn.qk)
   /\ msg = <<>> /\ gi = 1 /\ gst = <<>> /\ walk = <<>>
   /\ node = [z \in AllZones |-> "none"] /\ tkeys = [z \in AllZones |-> {}]
-  /\ dsd = {} /\ ttl0 = {} /\ probes = 0 /\ entp = FALSE /\ run = 1 /\ hist = <<>> /\ late = FALSE /\ shortz = {}
+  /\ dsd = {} /\ ttl0 = {} /\ probes = 0 /\ entp = "no" /\ run = 1 /\ hist = <<>> /\ late = FALSE /\ shortz = {}
   /\ served = <<>> /\ fetches = <<>> /\ result = "none" /\ steps = 0
 
 -----------------------------------------------------------------------------
@@ -275,7 +296,7 @@ Without(m, P(_)) == SelectSeq(m, LAMBDA g : ~P(g))
 
 \* one rewrite per message keeps the grid at "one action at each target";
 \* with Budget = 2 the second rewrite goes to a later (or the same) message
-CanAdv(act) == /\ pc = "wire" /\ budget > 0 /\ act \in AdvActs
+CanAdv(act) == /\ pc = "wire" /\ budget > 0 /\ act \in AdvActs /\ pend.t \in AdvOn
                /\ \A i \in 1..Len(advlog) :
                      ~(advlog[i].t = pend.t /\ advlog[i].z = pend.z)
 
@@ -487,34 +508,46 @@ Adv_CnameLoop ==
   /\ CanAdv("CnameLoop") /\ pend.t = "ANS" /\ scn.qk = "positive" /\ MaxRuns = 1
   /\ Rewrite("CnameLoop", "", LoopAnswer(scn.shape))
 
-\* A genuine, validly signed proof record of the zone that shows something
-\* else than the answer needs ("deeper": the name does not exist, but its
-\* closest encloser is not the wildcard's parent; "matches": the name exists)
-OtherProof(z, role, cov) ==
-  LET h == Grp(role, "proof", z, "other",
-               [flavour |-> IF scn.denial = "nsec" THEN "nsec" ELSE "nsec3",
-                covers |-> cov, optout |-> FALSE], FALSE, 2)
+\* A genuine, validly signed proof record of the zone for another name than
+\* the scenario's ("ok": that name does not exist, closest encloser ce labels
+\* below the apex; "matches": that name exists), owner d labels below the apex
+OtherProofD(z, role, cov, d, ce) ==
+  LET h == [Grp(role, "proof", z, "other",
+                [flavour |-> IF scn.denial = "nsec" THEN "nsec" ELSE "nsec3",
+                 covers |-> cov, optout |-> FALSE], FALSE, d) EXCEPT !.ce = ce]
   IN [h EXCEPT !.sigs = {Sig(z, h, "ok")}]
+OtherProof(z, role, cov) == OtherProofD(z, role, cov, 2, 2)
 
-\* The genuine wildcard RRset (and RRSIG, labels field and all) is replayed
-\* where the wildcard does not apply (RFC 4592 3.3.1, RFC 4035 5.3.4):
-\*  Below: at a name two labels below the wildcard's parent although the name
-\*         in between exists - with the genuine denial for that name (true
-\*         answer: NXDOMAIN; the proof's closest encloser is the deeper name);
-\*  At:    at an existing name that lacks the type, with the NSEC/NSEC3
-\*         matching that name (true answer: NODATA);
-\*  CnameBelow: as Below with a wildcard CNAME heading a chain.
+\* The genuine wildcard RRset of "*.wild" (and RRSIG, labels field and all: the
+\* closest encloser it implies is "wild", one label below the apex) is replayed
+\* where the wildcard does not apply because a closer encloser exists
+\* (RFC 4592 3.3.1, RFC 4035 5.3.4, RFC 5155 8.8), together with the genuine
+\* denial for that name (true answer: NXDOMAIN; every record is authentic, the
+\* proof's closest encloser is two labels below the apex):
+\*  Below:     nx.m.wild, "m.wild" exists (NSEC: closest encloser from the
+\*             covering record's owner);
+\*  BelowEnt:  nx.e.wild, "e.wild" is an empty non-terminal (NSEC: closest
+\*             encloser from the covering record's next name);
+\*  BelowDeep: a.b.m.wild, two labels below the existing name;
+\*  Outer:     x.i.wild, where the inner wildcard *.i.wild applies (true
+\*             answer: that wildcard's data);
+\*  CnameBelow: as Below with a wildcard CNAME heading a chain;
+\*  At:        at the existing name m.wild that lacks the type, with the
+\*             NSEC/NSEC3 matching that name (true answer: NODATA).
+MisKinds == {"Below", "BelowEnt", "BelowDeep", "Outer", "At", "CnameBelow"}
+MisDepth(k) == CASE k = "At" -> 2 [] k = "BelowDeep" -> 4 [] OTHER -> 3
 Adv_MisapplyWildcard ==
   /\ pc = "wire"
-  /\ \E k \in {"Below", "At", "CnameBelow"} :
+  /\ \E k \in MisKinds :
         /\ CanAdv("MisapplyWildcard") /\ pend.t = "ANS" /\ scn.qk = "nxdomain"
         /\ MaxRuns = 1 /\ SignedRole("soa")
         /\ LET z == Leaf(scn.shape)
-               prf == OtherProof(z, "nx", IF k = "At" THEN "matches" ELSE "deeper")
+               prf == OtherProofD(z, "nx", IF k = "At" THEN "matches" ELSE "ok",
+                                  IF k = "Outer" THEN 3 ELSE 2, 2)
            IN Rewrite("MisapplyWildcard" \o k, "nx",
                  IF k = "CnameBelow"
-                 THEN <<Data(scn.shape, "cname1", z, 3, TRUE), Data(scn.shape, "ans", z, 1, FALSE), prf>>
-                 ELSE <<Data(scn.shape, "ans", z, IF k = "At" THEN 2 ELSE 3, TRUE), prf>>)
+                 THEN <<WData(scn.shape, "cname1", z, 3, 1), Data(scn.shape, "ans", z, 1, FALSE), prf>>
+                 ELSE <<WData(scn.shape, "ans", z, MisDepth(k), 1), prf>>)
 
 \* An existing RRset is denied: NODATA ("Nd") or NXDOMAIN ("Nx") with the zone's
 \* SOA and the genuine NSEC/NSEC3 matching the name (its bitmap lists the type)
@@ -613,7 +646,10 @@ StartGroup ==
          \* get_node: no trust anchor above the name - an Indeterminate node, no fetch
          w == IF Anchored THEN Need(Path(Target(g)), 1) ELSE <<>> IN
        /\ walk' = w
-       /\ probes' = IF g.sigs = {} /\ ~AtCut(g) /\ Anchored THEN g.depth ELSE 0
+       \* (an expanded wildcard's owner does not exist: the walk ends at the
+       \* first name that does not - one label below the closest encloser)
+       /\ probes' = IF g.sigs = {} /\ ~AtCut(g) /\ Anchored
+                    THEN (IF g.wild THEN g.ce + 1 ELSE g.depth) ELSE 0
        /\ pc' = IF w # <<>> THEN "walk" ELSE "probe"
   /\ UNCHANGED <<late, shortz, run, hist, entp, scn, budget, advlog, pend, inbox, msg, gi, gst, node, tkeys, dsd,
                  ttl0, served, fetches, result>>
@@ -629,7 +665,7 @@ Issue(t, z) ==
 \* no NSEC3; the covering Opt-Out record makes the ENT itself an (assumed)
 \* insecure delegation and the walk ends there
 EntStops == EntShape(scn.shape) /\ ~LeafSecure(scn.shape) /\ scn.denial = "optout"
-NeedEnt == walk # <<>> /\ Head(walk) = "zone" /\ EntShape(scn.shape) /\ ~entp
+NeedEnt == walk # <<>> /\ Head(walk) = "zone" /\ EntShape(scn.shape) /\ entp = "no"
 
 FetchNext ==
   /\ pc = "walk" /\ walk # <<>> /\ ~NeedEnt /\ Step
@@ -658,7 +694,7 @@ SetNode(z, st, keys) ==
 \* secure intermediate name (nsec_for_ds / nsec3_for_ds); honest upstream
 EntProbe ==
   /\ pc = "walk" /\ NeedEnt /\ Step
-  /\ entp' = TRUE
+  /\ entp' = "now"
   /\ fetches' = Append(fetches, [t |-> "DS", z |-> "name"])
   /\ IF UsesTtl0("tld") THEN Finish("panic") /\ UNCHANGED <<node, tkeys, ttl0, walk>>
      ELSE IF EntStops THEN SetNode("zone", "Insecure", {}) /\ UNCHANGED result
@@ -688,7 +724,13 @@ ProofGood(g, z, keys) ==   \* validly signed by zone z, and it proves what is ne
 \* DS answer arrived (create_child_node, nsec_for_ds, nsec3_for_ds)
 VerifyDs ==
   /\ pc = "vds" /\ Step
-  /\ LET z == pend.z p == Parent(z) keys == tkeys[p]
+  /\ LET z == pend.z p == Parent(z)
+         \* D_ent_node_as_signer: get_node starts the walk at the closest
+         \* cached node; when that is the node of the empty non-terminal (an
+         \* "intermediate" node: no keys) it is taken for the signer's node
+         keys == IF "D_ent_node_as_signer" \in Dev /\ z = "zone" /\ EntShape(scn.shape)
+                    /\ entp = "cached"
+                 THEN {} ELSE tkeys[p]
          hasDs == Has(inbox, "ans") /\ Get(inbox, "ans").kind = "ds"
          badlabel == \E i \in 1..Len(inbox) : inbox[i].kind = "proof" /\
                         inbox[i].prf.covers = "badlabel"
@@ -781,10 +823,20 @@ ChainOk == CASE scn.qk \in {"cname1", "wcname"} -> Has(msg, "cname1")
              [] OTHER -> TRUE
 \* do_cname_dname: a CNAME expanded from a wildcard needs the proof that the
 \* name itself does not exist (check_not_exists_for_wildcard), as an answer does
+\* check_not_exists_for_wildcard: the name itself must be shown not to exist,
+\* and the closest encloser the RRSIG's labels field implies must be the one
+\* the denial establishes (NSEC: compared with the one derived from the
+\* covering record; NSEC3: the record must cover the name one label below it)
+WildCeOk(g, p) ==
+  CASE "M_wild_ce_suffix" \in Mut -> p.ce >= g.ce     \* mutant: any deeper encloser will do
+    [] "M_wild_ce_any" \in Mut -> TRUE                \* mutant: encloser not compared
+    [] "M_wild_target" \in Mut -> p.ce + 1 = g.depth  \* mutant: the full name must be the next closer
+    [] OTHER -> p.ce = g.ce
+WildProven(g) == Usable("nx", TheSig(g).signer) /\ WildCeOk(g, Get(msg, "nx"))
 WildLink(role) ==
   LET g == Get(msg, role) IN
   IF g.wild /\ St(role) = "Secure"
-  THEN IF Usable("nx", TheSig(g).signer) THEN Down("nx", "Secure") ELSE "Bogus"
+  THEN IF WildProven(g) THEN Down("nx", "Secure") ELSE "Bogus"
   ELSE St(role)
 \* links followed before the final name (max_cname_dname)
 LinkCount(m) == IF Has(m, "cname1") THEN (IF Has(m, "cname2") THEN 2 ELSE 1)
@@ -838,7 +890,7 @@ Verdict ==
      THEN LET st == St("ans") g == Get(msg, "ans") IN
           IF st # "Secure" THEN Meet(st, extra)
           ELSE IF ~g.wild THEN Meet(maybe, extra)
-          ELSE IF Usable("nx", TheSig(g).signer)
+          ELSE IF WildProven(g)
                THEN Meet(Meet(maybe, Down("nx", "Secure")), extra)
                ELSE "Bogus"
      ELSE Meet(Negative(maybe), extra)
@@ -858,25 +910,41 @@ Judge ==
 \* and are fetched again) and the zones may be re-salted (rs: a new NSEC3 chain
 \* over the same content and keys; the NSEC3-hash cache must not notice).
 ExpiredAt == {z \in AllZones : Anc(z) \cap shortz # {}}
+\* With "OtherQuestion" the next validation on the context may be of another
+\* question (any query kind of the configuration): nodes, signature and
+\* NSEC3-hash caches filled for one name serve the next.
+NextQKinds == IF "OtherQuestion" \in AdvActs
+              THEN {q \in QKinds : EntShape(scn.shape) => q \in EntQKinds} ELSE {scn.qk}
 NextQuery ==
   /\ pc = "done" /\ run < MaxRuns /\ result # "panic"
-  /\ \E tp \in BOOLEAN, rs \in BOOLEAN :
+  /\ \E tp \in BOOLEAN, rs \in BOOLEAN, q \in NextQKinds :
        /\ tp => ~late /\ "TimePasses" \in AdvActs
        /\ rs => scn.denial # "nsec" /\ "Resalt" \in AdvActs
-       /\ hist' = Append(hist, [adv |-> advlog, result |-> result, tp |-> tp, rs |-> rs])
+       /\ hist' = Append(hist, [adv |-> advlog, result |-> result, tp |-> tp, rs |-> rs,
+                                qk |-> scn.qk, nf |-> Len(fetches),
+                                \* the leaf zone's node expires, the node of the
+                                \* empty non-terminal above it stays cached
+                                stale |-> tp /\ EntShape(scn.shape) /\ entp # "no"
+                                         /\ "zone" \in ExpiredAt /\ "tld" \notin ExpiredAt])
        /\ late' = (late \/ tp)
+       /\ scn' = [scn EXCEPT !.qk = q]
+       /\ inbox' = HonestAnswer(scn.shape, scn.denial, q)
        /\ IF tp THEN /\ node' = [z \in AllZones |-> IF z \in ExpiredAt THEN "none" ELSE node[z]]
                      /\ tkeys' = [z \in AllZones |-> IF z \in ExpiredAt THEN {} ELSE tkeys[z]]
                      /\ shortz' = {}
-                     /\ entp' = IF "zone" \in ExpiredAt \/ "tld" \in ExpiredAt THEN FALSE ELSE entp
-          ELSE UNCHANGED <<node, tkeys, shortz, entp>>
+          ELSE UNCHANGED <<node, tkeys, shortz>>
+       \* (ideally the empty non-terminal is looked at again whenever the walk
+       \* passes it; the code keeps its node as long as the parent zone's)
+       /\ entp' = IF entp = "no" THEN "no"
+                  ELSE IF tp /\ ("tld" \in ExpiredAt \/
+                                 ("zone" \in ExpiredAt /\ "D_ent_node_as_signer" \notin Dev))
+                  THEN "no" ELSE "cached"
   /\ run' = run + 1
   /\ advlog' = <<>> /\ budget' = Budget
   /\ pc' = "wire" /\ pend' = [t |-> "ANS", z |-> Leaf(scn.shape)]
-  /\ inbox' = HonestAnswer(scn.shape, scn.denial, scn.qk)
   /\ msg' = <<>> /\ gi' = 1 /\ gst' = <<>> /\ walk' = <<>> /\ probes' = 0
   /\ result' = "none" /\ steps' = 0
-  /\ UNCHANGED <<scn, dsd, ttl0, served, fetches>>
+  /\ UNCHANGED <<dsd, ttl0, served, fetches>>
 
 Done == pc = "done" /\ (run = MaxRuns \/ result = "panic") /\ UNCHANGED vars
 
@@ -935,17 +1003,26 @@ MeetAll(m, i) == IF i > Len(m) THEN "Secure" ELSE Meet(RRsetO(m[i]), MeetAll(m, 
 PrfOk(m, role) == Has(m, role) /\ Get(m, role).prf.covers = "ok" /\ RRsetO(Get(m, role)) = "Secure"
 OptOut(m, role) == Has(m, role) /\ Get(m, role).prf.optout
 
+\* RFC 4035 5.3.4, RFC 4592 3.3.1, RFC 5155 8.8: an RRset expanded from a
+\* wildcard is authenticated only together with the proof that no closer match
+\* exists - a valid denial of the name whose closest encloser is the wildcard's
+\* parent (a deeper one: an existing name lies in between and the wildcard
+\* does not apply)
+WildOk(m) == \A i \in 1..Len(m) :
+                m[i].wild /\ RRsetO(m[i]) = "Secure" =>
+                   PrfOk(m, "nx") /\ Get(m, "nx").ce = m[i].ce
 \* is the answer complete for the question (RFC 4035 5.4, RFC 5155 8.4-8.8)?
 HasSoa(m) == Has(m, "soa") /\ SoaFits(m)
 Complete(m) ==
   IF IsLoop(m) THEN TRUE
+  ELSE IF ~WildOk(m) THEN FALSE
   ELSE
   CASE scn.qk \in {"positive", "cname1", "cname2", "dname", "dnamex"} ->
          /\ Has(m, "ans")
          /\ scn.qk \in {"dname", "dnamex"} => Has(m, "dname")
          /\ scn.qk \in {"cname1", "cname2"} => Has(m, "cname1")
          /\ scn.qk = "cname2" => Has(m, "cname2")
-    [] scn.qk \in {"wildcard", "wilddeep"} ->
+    [] scn.qk \in {"wildcard", "wilddeep", "wildsub"} ->
          Has(m, "ans") /\ (ChainO(QZone) = "Secure" => PrfOk(m, "nx"))
     [] scn.qk = "wcname" ->
          Has(m, "ans") /\ Has(m, "cname1") /\ (ChainO(QZone) = "Secure" => PrfOk(m, "nx"))
@@ -997,7 +1074,13 @@ BenignLog(log) ==
 \* key with the same tag uses up the tolerance for one failed verification)
 RECURSIVE AllLog(_)
 AllLog(i) == IF i > Len(hist) THEN advlog ELSE hist[i].adv \o AllLog(i + 1)
-Benign == BenignLog(AllLog(1))
+\* honest signatures with little time left, served before time passed (later
+\* runs get fresh ones): nothing an adversary did
+Logs == [i \in 1..Len(hist) |-> hist[i].adv] \o <<advlog>>
+LateBefore(r) == \E i \in 1..(r - 1) : hist[i].tp
+AllShortEarly == \A r \in 1..Len(Logs) : \A j \in 1..Len(Logs[r]) :
+                    Logs[r][j].act = "ShortSig" /\ ~LateBefore(r)
+Benign == BenignLog(AllLog(1)) \/ AllShortEarly
 \* (RFC 4035 4.3 calls data without a trust anchor above it Indeterminate; the
 \* property only demands that it is not reported secure.  With the iteration
 \* limit for "insecure" exceeded any signed NSEC3 may end the validation as
